@@ -91,21 +91,40 @@ def str_const_cmp(t, f=None):
 
 
 def true_edge(f, bi):
-    """(true successor, false successor) of the switch that tests the bool returned by the call in block bi"""
+    """(true successor, false successor) of the switch that tests the bool returned by the call in block bi - directly, or after the bool was
+    kept in a local (`let all_loaded = list.is_empty(); .. if all_loaded {`) and temporaries were dropped in between"""
     t = f.blocks[bi]["t"]
     nxt = t[4]
     seen = 0
-    while nxt is not None and seen < 4:
+    cur = {t[3][0]}
+    neg = set()
+    while nxt is not None and nxt >= 0 and seen < 8:
         seen += 1
-        tt = f.blocks[nxt]["t"]
-        if tt[0] == "switch" and tt[1][0] in ("c", "m") and tt[1][1][0] == t[3][0]:
+        bl = f.blocks[nxt]
+        for st in bl["s"]:
+            if st[0] == "a" and not st[1][1]:
+                if st[2][0] == "use" and st[2][1][0] in ("c", "m") and not st[2][1][1][1] and st[2][1][1][0] in cur:
+                    cur.add(st[1][0])
+                    if st[2][1][1][0] in neg:
+                        neg.add(st[1][0])
+                elif st[2][0] == "un" and st[2][1] == "Not" and st[2][2][0] in ("c", "m") and st[2][2][1][0] in cur:
+                    cur.add(st[1][0])
+                    if st[2][2][1][0] not in neg:
+                        neg.add(st[1][0])
+        tt = bl["t"]
+        if tt[0] == "switch" and tt[1][0] in ("c", "m") and tt[1][1][0] in cur:
             zero = [tb for v, tb in tt[2] if v == "0"]
             if zero:
-                return tt[3], zero[0]
+                return (zero[0], tt[3]) if tt[1][1][0] in neg else (tt[3], zero[0])
             return None
         if tt[0] == "goto":
             nxt = tt[1]
             continue
+        if tt[0] == "drop":
+            sc = f.succ(nxt)
+            if len(sc) == 1:
+                nxt = sc[0]
+                continue
         return None
     return None
 
